@@ -578,6 +578,24 @@ fn report(ops: &[Op]) -> bool {
 
 pub fn main(args: &[String]) {
     match args[0].as_str() {
+        "nanwitness" => {
+            // a key with a NaN known dimension, or an infinite definite available space, does not match itself
+            let out = LayoutOutput::from_outer_size(Size { width: 1.0, height: 1.0 });
+            let none = Size { width: None, height: None };
+            let mc = Size { width: AvailableSpace::MaxContent, height: AvailableSpace::MaxContent };
+            let mut c = Cache::new();
+            let kd = Size { width: Some(f32::NAN), height: None };
+            c.store(kd, mc, RunMode::ComputeSize, out);
+            println!("NANKEY hit={}", c.get(kd, mc, RunMode::ComputeSize).is_some());
+            let mut c = Cache::new();
+            let av = Size { width: AvailableSpace::Definite(f32::INFINITY), height: AvailableSpace::MaxContent };
+            c.store(none, av, RunMode::PerformLayout, out);
+            println!("INFKEY hit={}", c.get(none, av, RunMode::PerformLayout).is_some());
+            let mut c = Cache::new();
+            let av = Size { width: AvailableSpace::Definite(100.0), height: AvailableSpace::MaxContent };
+            c.store(none, av, RunMode::PerformLayout, out);
+            println!("FINITEKEY hit={}", c.get(none, av, RunMode::PerformLayout).is_some());
+        }
         "cases" => {
             let seed: u64 = args[1].parse().unwrap();
             let n: u64 = args[2].parse().unwrap();
